@@ -34,17 +34,39 @@ type c10Acc struct {
 func c10Run(fs *Facts) {
 	var rows []c10Row
 	complete := true
-	for _, spec := range []struct{ path, strct string }{
-		{"app/core/hydra/swamp/beacon/beacon.go", "beacon"},
-		{"app/core/hydra/swamp/treasure/treasure.go", "treasure"},
+	swampFiles := []string{"app/core/hydra/swamp/swamp.go", "app/core/hydra/swamp/swamp_bucket.go", "app/core/hydra/swamp/swamp_patch.go",
+		"app/core/hydra/swamp/swamp_patch_expired.go"}
+	for _, spec := range []struct {
+		paths              []string
+		strct, lock, label string
+		only               []string // nil: every field but the lock
+	}{
+		{[]string{"app/core/hydra/swamp/beacon/beacon.go"}, "beacon", "mu", "beacon", nil},
+		{[]string{"app/core/hydra/swamp/treasure/treasure.go"}, "treasure", "mu", "treasure", nil},
+		// bucket: the equality index under mu, the pending queue under pendingMu
+		{[]string{"app/core/hydra/swamp/bucket/bucket.go"}, "bucket", "mu", "bucket", []string{"byValue", "byKey"}},
+		{[]string{"app/core/hydra/swamp/bucket/bucket.go"}, "bucket", "pendingMu", "bucketPending", []string{"pending"}},
+		// swamp: the plain (non-atomic, non-interface) fields, each with the mutex that is documented / used for it
+		{swampFiles, "swamp", "mu", "swamp", []string{"writeInterval", "closeAfterIdle"}},
+		{swampFiles, "swamp", "bucketsMu", "swampBuckets", []string{"buckets"}},
+		{swampFiles, "swamp", "closeMutex", "swampClose", []string{"destroyed"}},
 	} {
-		f, err := Load(spec.path)
-		if err != nil {
-			fs.Err("%v", err)
+		var files []*File
+		bad := false
+		for _, pth := range spec.paths {
+			f, err := Load(pth)
+			if err != nil {
+				fs.Err("%v", err)
+				bad = true
+				continue
+			}
+			files = append(files, f)
+		}
+		if bad || len(files) == 0 {
 			complete = false
 			continue
 		}
-		r, ok := c10Struct(f, spec.strct)
+		r, ok := c10Struct(files, spec.strct, spec.lock, spec.label, spec.only)
 		if !ok {
 			complete = false
 		}
@@ -76,212 +98,245 @@ func c10Run(fs *Facts) {
 			lean = append(lean, k)
 		}
 	}
-	fs.Tri("complete", TriOf(complete && len(lean) > 0), "app/core/hydra/swamp/beacon/beacon.go, app/core/hydra/swamp/treasure/treasure.go")
+	fs.Tri("complete", TriOf(complete && len(lean) > 0), "beacon.go, treasure.go, bucket.go, swamp*.go")
 	fs.Raw("table", "[\n    "+strings.Join(lean, ",\n    ")+"]", fmt.Sprintf("%d rows", len(lean)), "")
 }
 
-func c10Struct(f *File, strct string) ([]c10Row, bool) {
+func c10Struct(files []*File, strct, lock, label string, only []string) ([]c10Row, bool) {
 	// fields
 	fields := map[string]string{}
-	ast.Inspect(f.AST, func(x ast.Node) bool {
-		ts, ok := x.(*ast.TypeSpec)
-		if !ok || ts.Name.Name != strct {
-			return true
-		}
-		if st, ok := ts.Type.(*ast.StructType); ok {
-			for _, fl := range st.Fields.List {
-				for _, nm := range fl.Names {
-					if nm.Name != "mu" {
-						fields[nm.Name] = f.Str(fl.Type)
+	keep := map[string]bool{}
+	for _, n := range only {
+		keep[n] = true
+	}
+	for _, f := range files {
+		ast.Inspect(f.AST, func(x ast.Node) bool {
+			ts, ok := x.(*ast.TypeSpec)
+			if !ok || ts.Name.Name != strct {
+				return true
+			}
+			if st, ok := ts.Type.(*ast.StructType); ok {
+				for _, fl := range st.Fields.List {
+					for _, nm := range fl.Names {
+						if nm.Name != lock && (only == nil || keep[nm.Name]) {
+							fields[nm.Name] = f.Str(fl.Type)
+						}
 					}
 				}
 			}
-		}
-		return false
-	})
+			return false
+		})
+	}
 	if len(fields) == 0 {
 		return nil, false
 	}
 	type meth struct {
-		fd       *ast.FuncDecl
-		recv     string
-		accs     []c10Acc
-		lockEvs  []struct{ pos token.Pos; mode int } // mode after the event
+		file    *File
+		fd      *ast.FuncDecl
+		recv    string
+		accs    []c10Acc
+		lockEvs []struct {
+			pos  token.Pos
+			mode int
+		} // mode after the event
 		usesLock bool
 		escapes  []string
-		calls    []struct{ pos token.Pos; name string }
+		calls    []struct {
+			pos  token.Pos
+			name string
+		}
 	}
 	var meths []*meth
 	byName := map[string]*meth{}
 	ok := true
-	for _, d := range f.AST.Decls {
-		fd, isFn := d.(*ast.FuncDecl)
-		if !isFn || fd.Recv == nil || len(fd.Recv.List) != 1 || fd.Body == nil {
-			continue
-		}
-		t := fd.Recv.List[0].Type
-		if s, isStar := t.(*ast.StarExpr); isStar {
-			t = s.X
-		}
-		id, isId := t.(*ast.Ident)
-		if !isId || id.Name != strct || len(fd.Recv.List[0].Names) != 1 {
-			continue
-		}
-		m := &meth{fd: fd, recv: fd.Recv.List[0].Names[0].Name}
-		meths = append(meths, m)
-		byName[fd.Name.Name] = m
-		deferred := map[ast.Node]bool{}
-		ast.Inspect(fd.Body, func(x ast.Node) bool {
-			if ds, isDefer := x.(*ast.DeferStmt); isDefer {
-				ast.Inspect(ds, func(y ast.Node) bool { deferred[y] = true; return true })
+	for _, f := range files {
+		for _, d := range f.AST.Decls {
+			fd, isFn := d.(*ast.FuncDecl)
+			if !isFn || fd.Body == nil {
+				continue
 			}
-			return true
-		})
-		// writes: selectors that are (the base of) an assignment target, inc/dec operand or the first argument of delete
-		writes := map[*ast.SelectorExpr]bool{}
-		atomics := map[*ast.SelectorExpr]bool{}
-		base := func(e ast.Expr) *ast.SelectorExpr {
-			for {
-				switch v := e.(type) {
-				case *ast.IndexExpr:
-					e = v.X
-				case *ast.StarExpr:
-					e = v.X
-				case *ast.ParenExpr:
-					e = v.X
-				case *ast.SelectorExpr:
-					// recv.field or recv.field.sub…: the innermost selector on the receiver
-					if id, isId := v.X.(*ast.Ident); isId && id.Name == m.recv {
-						return v
-					}
-					e = v.X
-				default:
-					return nil
-				}
+			// a method of the struct, or a free helper whose first parameter is the struct (insertLocked(b *bucket, …))
+			var recvField *ast.Field
+			if fd.Recv != nil && len(fd.Recv.List) == 1 {
+				recvField = fd.Recv.List[0]
+			} else if fd.Recv == nil && fd.Type.Params != nil && len(fd.Type.Params.List) > 0 {
+				recvField = fd.Type.Params.List[0]
 			}
-		}
-		// a reference to a map / slice field that leaves the method shares its storage with the struct: the field itself,
-		// a slice expression of it, or a local variable that was assigned one of those
-		isRefField := func(name string) bool {
-			ty := fields[name]
-			return strings.HasPrefix(ty, "map[") || strings.HasPrefix(ty, "[]")
-		}
-		alias := map[string]string{}
-		var refOf func(e ast.Expr) string
-		refOf = func(e ast.Expr) string {
-			switch v := e.(type) {
-			case *ast.ParenExpr:
-				return refOf(v.X)
-			case *ast.SliceExpr:
-				return refOf(v.X)
-			case *ast.Ident:
-				return alias[v.Name]
-			case *ast.SelectorExpr:
-				if id, isId := v.X.(*ast.Ident); isId && id.Name == m.recv && isRefField(v.Sel.Name) {
-					return v.Sel.Name
-				}
+			if recvField == nil {
+				continue
 			}
-			return ""
-		}
-		for round := 0; round < 3; round++ {
+			t := recvField.Type
+			if s, isStar := t.(*ast.StarExpr); isStar {
+				t = s.X
+			}
+			id, isId := t.(*ast.Ident)
+			if !isId || id.Name != strct || len(recvField.Names) != 1 {
+				continue
+			}
+			m := &meth{file: f, fd: fd, recv: recvField.Names[0].Name}
+			meths = append(meths, m)
+			byName[fd.Name.Name] = m
+			deferred := map[ast.Node]bool{}
 			ast.Inspect(fd.Body, func(x ast.Node) bool {
-				switch s := x.(type) {
-				case *ast.AssignStmt:
-					if len(s.Lhs) == len(s.Rhs) {
-						for i, l := range s.Lhs {
-							if id, isId := l.(*ast.Ident); isId && id.Name != "_" {
-								if fld := refOf(s.Rhs[i]); fld != "" {
-									alias[id.Name] = fld
+				if ds, isDefer := x.(*ast.DeferStmt); isDefer {
+					ast.Inspect(ds, func(y ast.Node) bool { deferred[y] = true; return true })
+				}
+				return true
+			})
+			// writes: selectors that are (the base of) an assignment target, inc/dec operand or the first argument of delete
+			writes := map[*ast.SelectorExpr]bool{}
+			atomics := map[*ast.SelectorExpr]bool{}
+			base := func(e ast.Expr) *ast.SelectorExpr {
+				for {
+					switch v := e.(type) {
+					case *ast.IndexExpr:
+						e = v.X
+					case *ast.StarExpr:
+						e = v.X
+					case *ast.ParenExpr:
+						e = v.X
+					case *ast.SelectorExpr:
+						// recv.field or recv.field.sub…: the innermost selector on the receiver
+						if id, isId := v.X.(*ast.Ident); isId && id.Name == m.recv {
+							return v
+						}
+						e = v.X
+					default:
+						return nil
+					}
+				}
+			}
+			// a reference to a map / slice field that leaves the method shares its storage with the struct: the field itself,
+			// a slice expression of it, or a local variable that was assigned one of those
+			isRefField := func(name string) bool {
+				ty := fields[name]
+				return strings.HasPrefix(ty, "map[") || strings.HasPrefix(ty, "[]")
+			}
+			alias := map[string]string{}
+			var refOf func(e ast.Expr) string
+			refOf = func(e ast.Expr) string {
+				switch v := e.(type) {
+				case *ast.ParenExpr:
+					return refOf(v.X)
+				case *ast.SliceExpr:
+					return refOf(v.X)
+				case *ast.Ident:
+					return alias[v.Name]
+				case *ast.SelectorExpr:
+					if id, isId := v.X.(*ast.Ident); isId && id.Name == m.recv && isRefField(v.Sel.Name) {
+						return v.Sel.Name
+					}
+				}
+				return ""
+			}
+			for round := 0; round < 3; round++ {
+				ast.Inspect(fd.Body, func(x ast.Node) bool {
+					switch s := x.(type) {
+					case *ast.AssignStmt:
+						if len(s.Lhs) == len(s.Rhs) {
+							for i, l := range s.Lhs {
+								if id, isId := l.(*ast.Ident); isId && id.Name != "_" {
+									if fld := refOf(s.Rhs[i]); fld != "" {
+										alias[id.Name] = fld
+									}
+								}
+							}
+						}
+					case *ast.ValueSpec:
+						if len(s.Names) == len(s.Values) {
+							for i, n := range s.Names {
+								if fld := refOf(s.Values[i]); fld != "" {
+									alias[n.Name] = fld
 								}
 							}
 						}
 					}
-				case *ast.ValueSpec:
-					if len(s.Names) == len(s.Values) {
-						for i, n := range s.Names {
-							if fld := refOf(s.Values[i]); fld != "" {
-								alias[n.Name] = fld
-							}
+					return true
+				})
+			}
+			ast.Inspect(fd.Body, func(x ast.Node) bool {
+				switch s := x.(type) {
+				case *ast.AssignStmt:
+					for _, l := range s.Lhs {
+						if b := base(l); b != nil {
+							writes[b] = true
+						}
+					}
+				case *ast.IncDecStmt:
+					if b := base(s.X); b != nil {
+						writes[b] = true
+					}
+				case *ast.CallExpr:
+					fn := f.Str(s.Fun)
+					if fn == "delete" && len(s.Args) > 0 {
+						if b := base(s.Args[0]); b != nil {
+							writes[b] = true
+						}
+					}
+					if strings.HasPrefix(fn, "atomic.") {
+						for _, a := range s.Args {
+							ast.Inspect(a, func(y ast.Node) bool {
+								if se, isSel := y.(*ast.SelectorExpr); isSel {
+									atomics[se] = true
+								}
+								return true
+							})
+						}
+					}
+					// lock events
+					switch fn {
+					case m.recv + "." + lock + ".Lock", m.recv + "." + lock + ".RLock", m.recv + "." + lock + ".Unlock", m.recv + "." + lock + ".RUnlock":
+						m.usesLock = true
+						if deferred[s] {
+							return true
+						}
+						mode := map[string]int{"Lock": 2, "RLock": 1, "Unlock": 0, "RUnlock": 0}[fn[strings.LastIndex(fn, ".")+1:]]
+						m.lockEvs = append(m.lockEvs, struct {
+							pos  token.Pos
+							mode int
+						}{s.Pos(), mode})
+					}
+					if se, isSel := s.Fun.(*ast.SelectorExpr); isSel {
+						if id, isId := se.X.(*ast.Ident); isId && id.Name == m.recv {
+							m.calls = append(m.calls, struct {
+								pos  token.Pos
+								name string
+							}{s.Pos(), se.Sel.Name})
+						}
+					}
+					if fid, isFid := s.Fun.(*ast.Ident); isFid && len(s.Args) > 0 {
+						if a0, isA := s.Args[0].(*ast.Ident); isA && a0.Name == m.recv {
+							m.calls = append(m.calls, struct {
+								pos  token.Pos
+								name string
+							}{s.Pos(), fid.Name})
+						}
+					}
+				case *ast.ReturnStmt:
+					for _, r := range s.Results {
+						if fld := refOf(r); fld != "" {
+							m.escapes = append(m.escapes, fld)
 						}
 					}
 				}
 				return true
 			})
+			ast.Inspect(fd.Body, func(x ast.Node) bool {
+				se, isSel := x.(*ast.SelectorExpr)
+				if !isSel {
+					return true
+				}
+				id, isId := se.X.(*ast.Ident)
+				if !isId || id.Name != m.recv {
+					return true
+				}
+				if _, isField := fields[se.Sel.Name]; !isField || atomics[se] {
+					return true
+				}
+				m.accs = append(m.accs, c10Acc{pos: se.Pos(), field: se.Sel.Name, write: writes[se]})
+				return true
+			})
 		}
-		ast.Inspect(fd.Body, func(x ast.Node) bool {
-			switch s := x.(type) {
-			case *ast.AssignStmt:
-				for _, l := range s.Lhs {
-					if b := base(l); b != nil {
-						writes[b] = true
-					}
-				}
-			case *ast.IncDecStmt:
-				if b := base(s.X); b != nil {
-					writes[b] = true
-				}
-			case *ast.CallExpr:
-				fn := f.Str(s.Fun)
-				if fn == "delete" && len(s.Args) > 0 {
-					if b := base(s.Args[0]); b != nil {
-						writes[b] = true
-					}
-				}
-				if strings.HasPrefix(fn, "atomic.") {
-					for _, a := range s.Args {
-						ast.Inspect(a, func(y ast.Node) bool {
-							if se, isSel := y.(*ast.SelectorExpr); isSel {
-								atomics[se] = true
-							}
-							return true
-						})
-					}
-				}
-				// lock events
-				switch fn {
-				case m.recv + ".mu.Lock", m.recv + ".mu.RLock", m.recv + ".mu.Unlock", m.recv + ".mu.RUnlock":
-					m.usesLock = true
-					if deferred[s] {
-						return true
-					}
-					mode := map[string]int{"Lock": 2, "RLock": 1, "Unlock": 0, "RUnlock": 0}[fn[strings.LastIndex(fn, ".")+1:]]
-					m.lockEvs = append(m.lockEvs, struct {
-						pos  token.Pos
-						mode int
-					}{s.Pos(), mode})
-				}
-				if se, isSel := s.Fun.(*ast.SelectorExpr); isSel {
-					if id, isId := se.X.(*ast.Ident); isId && id.Name == m.recv {
-						m.calls = append(m.calls, struct {
-							pos  token.Pos
-							name string
-						}{s.Pos(), se.Sel.Name})
-					}
-				}
-			case *ast.ReturnStmt:
-				for _, r := range s.Results {
-					if fld := refOf(r); fld != "" {
-						m.escapes = append(m.escapes, fld)
-					}
-				}
-			}
-			return true
-		})
-		ast.Inspect(fd.Body, func(x ast.Node) bool {
-			se, isSel := x.(*ast.SelectorExpr)
-			if !isSel {
-				return true
-			}
-			id, isId := se.X.(*ast.Ident)
-			if !isId || id.Name != m.recv {
-				return true
-			}
-			if _, isField := fields[se.Sel.Name]; !isField || atomics[se] {
-				return true
-			}
-			m.accs = append(m.accs, c10Acc{pos: se.Pos(), field: se.Sel.Name, write: writes[se]})
-			return true
-		})
 	}
 	// lock mode at a position: a walk over the statement structure.  A branch that ends in return / continue / break /
 	// panic does not pass its lock state on; merging branches keep the weaker mode; a function literal that is not
@@ -290,7 +345,8 @@ func c10Struct(f *File, strct string) ([]c10Row, bool) {
 	for _, m := range meths {
 		mm := map[token.Pos]int{}
 		modeMaps[m] = mm
-		recvMu := m.recv + ".mu."
+		recvMu := m.recv + "." + lock + "."
+		f := m.file
 		var walkStmts func(list []ast.Stmt, mode int) (int, bool)
 		var walkStmt func(st ast.Stmt, mode int) (int, bool)
 		var markExpr func(n ast.Node, mode int)
@@ -546,10 +602,10 @@ func c10Struct(f *File, strct string) ([]c10Row, bool) {
 			if h, isInh := inherited[n]; isInh && !m.usesLock {
 				held = h
 			}
-			rows = append(rows, c10Row{strct, a.field, n, a.write, held})
+			rows = append(rows, c10Row{label, a.field, n, a.write, held})
 		}
 		for _, e := range m.escapes {
-			rows = append(rows, c10Row{strct, e, n + " (escapes to caller)", false, 0})
+			rows = append(rows, c10Row{label, e, n + " (escapes to caller)", false, 0})
 		}
 	}
 	return rows, ok && len(meths) > 0
